@@ -443,13 +443,22 @@ type verifC14RespSpec struct {
 	clen    int64
 	hdr     [][]string
 	trailer [][]string
+	// 0: scripted body; 1: the transport returns http.NoBody; 2: a real exchange over loopback;
+	// 3: the transport returns an empty body that is not http.NoBody
+	bodyKind int64
 }
 
 func verifC14ParseResp(v vsx) (*verifC14RespSpec, bool) {
-	if v.k != 'l' || len(v.l) != 4 || v.l[0].k != 'i' || v.l[1].k != 'i' || v.l[0].i < 0 || v.l[1].i < -1 {
+	if v.k != 'l' || (len(v.l) != 4 && len(v.l) != 5) || v.l[0].k != 'i' || v.l[1].k != 'i' || v.l[0].i < 0 || v.l[1].i < -1 {
 		return nil, false
 	}
 	spec := &verifC14RespSpec{status: int(v.l[0].i), clen: v.l[1].i}
+	if len(v.l) == 5 {
+		if v.l[4].k != 'i' || v.l[4].i < 0 || v.l[4].i > 3 {
+			return nil, false
+		}
+		spec.bodyKind = v.l[4].i
+	}
 	var ok bool
 	if spec.hdr, ok = verifC14ParseHdrs(v.l[2]); !ok {
 		return nil, false
@@ -496,6 +505,9 @@ func (t *verifC14RecordingTransport) RoundTrip(req *http.Request) (*http.Respons
 }
 
 func verifC14RoundTripSpecRun(args []vsx, spec *verifC14ReqSpec, rs *verifC14RespSpec, accumulate bool) vsx {
+	if rs.bodyKind == 1 || rs.bodyKind == 3 {
+		return verifC14RoundTripNoBodyRun(args, spec, rs)
+	}
 	// the script must end the response body (EOF, error or Close): only then is the trace delivered
 	finishing := false
 	for _, op := range args[3].l {
